@@ -627,6 +627,14 @@ func (e *mpEnv) runPair(res *verifkit.Result, probe *rwProbe, g *aGraph, pc *pai
 			atomic.AddInt64(&st.first2, 1)
 		}
 	}
+	for i, a := range []aAct{a1, a2} {
+		if a.Name == "Get" {
+			if acc, txt := fetchGap([]pairRet{r1, r2}[i].byAcc, nil); acc != "" {
+				res.Violate(map[string]interface{}{"kind": "report", "field": "get-gap", "action": "pair " + ops, "backend": e.backend}, replay(),
+					"in the pair %s / %s (graph %s, %s back end): %s", pairActString(a1), pairActString(a2), g.Name, e.backend, txt)
+			}
+		}
+	}
 	notified := g.States[outs[0].D].Notified
 	if k, txt := checkPredicates(p, e.chain, notified); k != "" {
 		res.Violate(map[string]interface{}{"kind": "predicate", "field": k, "action": "pair " + ops, "backend": e.backend}, replay(),
